@@ -76,7 +76,7 @@ func caseIndex(id string) int {
 	return n
 }
 
-var encPool = []string{"(", ")", "\"", "'", "[", "]", "<", ">", "«", "»", "", "ab", "("}
+var encPool = []string{"(", ")", "\"", "'", "[", "]", "<", ">", "«", "»", "", "ab", "(", "q", "Q", "é", "É"}
 var idPool = []string{"", "x", "ID", "é", "a b", "Random", "_rand", "addr_", "日本"}
 var namePool = []string{"none", "calls", "policy", "state", "debug", "error", "trace", "user1", "user2", "user3", "user4", "user5",
 	"user6", "user7", "user8", "user9", "user10", "all"}
@@ -265,6 +265,9 @@ func genOptCfg(r *rand.Rand, isCond bool) Cfg {
 	}
 	if r.Intn(4) == 0 {
 		c.Cat = pick(r, idPool)
+	}
+	if r.Intn(6) == 0 {
+		c.Err = 7 // a recorded error must not stand in the way of any option or getter
 	}
 	return c
 }
